@@ -208,6 +208,11 @@ def gen(shard, rng, tier):
             members = ",".join('{"name":"m%d","type":"uint16"}' % i for i in range(n if n <= 257 else 300))
             vals = ",".join('"m%d":%d' % (i, rng.randrange(65536)) for i in range(n if n <= 257 else 300))
             yield from both(_hash_case('{"types":{%s,"P":[%s]},"primaryType":"P","domain":{"name":"x"},"message":{%s}}' % (dom, members, vals), "many-members"))
+        for nm in (1023, 1024, 1025, 1100):
+            members = '{"name":"h","type":"Header"},' + ",".join('{"name":"m%d","type":"%s"}' % (i, "Q" if i % 2 else "Q[]") for i in range(nm))
+            vals = '"h":{"v":7},' + ",".join('"m%d":%s' % (i, '{"w":true}' if i % 2 else "[]") for i in range(nm))
+            yield from both(_hash_case('{"types":{%s,"P":[%s],"Header":[{"name":"v","type":"uint8"}],"Q":[{"name":"w","type":"bool"}]},"primaryType":"P",'
+                                       '"domain":{"name":"x"},"message":{%s}}' % (dom, members, vals), "many-struct-members"))
         for n in (255, 256, 65535, 65536, 70000):
             s = "".join(rng.choice("abcdefghij") for _ in range(n))
             yield from both(_hash_case('{"types":{%s,"P":[{"name":"s","type":"string"},{"name":"b","type":"bytes"}]},"primaryType":"P",'
